@@ -27,7 +27,8 @@ CONFIGS_THOROUGH = ['sse2', 'sse2-fma', 'scalar', 'coresimd', 'libm', 'neon', 'w
 FLOAT_TYPES = {'Vec2': 'f32', 'Vec3': 'f32', 'Vec3A': 'f32', 'Vec4': 'f32', 'DVec2': 'f64', 'DVec3': 'f64', 'DVec4': 'f64'}
 OPS = {'dot', 'cross', 'perp_dot', 'length_squared', 'distance_squared', 'element_sum', 'element_product', 'lerp', 'midpoint',
        'project_onto', 'reject_from', 'project_onto_normalized', 'reject_from_normalized', 'reflect', 'refract', 'length', 'length_recip',
-       'distance', 'normalize', 'try_normalize', 'normalize_or', 'normalize_or_zero', 'normalize_and_length', 'angle_between', 'angle_to'}
+       'distance', 'normalize', 'try_normalize', 'normalize_or', 'normalize_or_zero', 'normalize_and_length', 'angle_between', 'angle_to',
+       'from_angle', 'to_angle', 'rotate', 'perp'}
 POLY_OPS = {'dot', 'cross', 'perp_dot', 'length_squared', 'distance_squared', 'element_sum', 'element_product', 'lerp', 'reflect', 'project_onto_normalized', 'reject_from_normalized'}
 
 
@@ -291,6 +292,16 @@ def run(ctx):
                         bad = 'angle_to is not atan2(..)'
                     elif not (S.eq(alg.nf(res.args[0]), S.sub(S.mul(a[0], b[1]), S.mul(a[1], b[0]))) and S.eq(alg.nf(res.args[1]), S.dot(a, b))):
                         bad = 'angle_to is not atan2(perp_dot, dot)'
+            elif mname == 'from_angle' and N == 1 and lanes is not None and len(lanes) == 2:
+                bad = vec_eq(lanes, [alg.cos_r(a[0]), alg.sin_r(a[0])], 'from_angle is not (cos t, sin t)')
+            elif mname == 'to_angle':
+                if not isinstance(res, tm.T) or res.op != 'atan2' or not (S.eq(alg.nf(res.args[0]), a[1]) and S.eq(alg.nf(res.args[1]), a[0])):
+                    bad = 'to_angle is not atan2(y, x)'
+            elif mname == 'rotate' and N == 2 and b is not None:
+                # complex multiplication: rhs rotated by the angle of self
+                bad = vec_eq(lanes, [S.sub(S.mul(a[0], b[0]), S.mul(a[1], b[1])), S.add(S.mul(a[1], b[0]), S.mul(a[0], b[1]))], 'rotate')
+            elif mname == 'perp' and N == 2:
+                bad = vec_eq(lanes, [S.neg(a[1]), a[0]], 'perp')
             else:
                 continue
             if not bad and mname in POLY_OPS:
